@@ -169,18 +169,20 @@ type World struct {
 	Feeders []*Actor
 	Voter   *Actor
 	All     []*Actor
-	byAddr  map[string]*Actor
-	Height  int64
-	Now     int64
-	ValSet  *cmttypes.ValidatorSet
-	Val     *cmttypes.Validator
-	ValOper sdk.ValAddress
-	Prices  map[string]math.LegacyDec // display -> price fed by the default feeder
-	Silent  map[string]bool           // display -> feeder silent
-	Blocks  []*BlockRecord
-	KeepLog int // number of block records kept (0 = all)
-	Dead    bool
-	Gov     string
+	// ElysMarketPool: id of the second oracle pool (uelys/uusdc) with leverage enabled, 0 if none
+	ElysMarketPool uint64
+	byAddr         map[string]*Actor
+	Height         int64
+	Now            int64
+	ValSet         *cmttypes.ValidatorSet
+	Val            *cmttypes.Validator
+	ValOper        sdk.ValAddress
+	Prices         map[string]math.LegacyDec // display -> price fed by the default feeder
+	Silent         map[string]bool           // display -> feeder silent
+	Blocks         []*BlockRecord
+	KeepLog        int // number of block records kept (0 = all)
+	Dead           bool
+	Gov            string
 
 	CommitMu     sync.Locker // if set, held exclusively around Commit (the committing ABCI client's discipline)
 	GenesisBytes []byte
